@@ -191,6 +191,12 @@ func child() {
 		stalled(rep, kind, sd, lv > 0)
 		return
 	}
+	if os.Getenv("C06_BATCH") == "framing" {
+		sd, _ := strconv.ParseInt(os.Getenv("C06_SEED"), 10, 64)
+		lv, _ := strconv.Atoi(os.Getenv("C06_LEVEL"))
+		framing(rep, kind, sd, lv > 0)
+		return
+	}
 	batch, _ := strconv.Atoi(os.Getenv("C06_BATCH"))
 	seed, _ := strconv.ParseInt(os.Getenv("C06_SEED"), 10, 64)
 	level, _ := strconv.Atoi(os.Getenv("C06_LEVEL"))
@@ -415,9 +421,22 @@ func main() {
 		}
 		jobs = append(jobs, job{k, -3}) // peers that stop reading their stream and disconnect with answers waiting
 	}
+	// second phase (after everything above has finished, so that the schedule of the first phase is what it always was):
+	// hostile HTTP framing of the request, byte by byte on raw connections
+	phase1 := len(jobs)
+	for _, k := range kit.AllKinds {
+		if k != kit.Stdio {
+			jobs = append(jobs, job{k, -4})
+		}
+	}
 	sem := make(chan struct{}, 8)
 	done := make(chan struct{}, len(jobs))
-	for _, j := range jobs {
+	for ji, j := range jobs {
+		if ji == phase1 {
+			for k := 0; k < phase1; k++ {
+				<-done
+			}
+		}
 		sem <- struct{}{}
 		go func(j job) {
 			defer func() { <-sem; done <- struct{}{} }()
@@ -434,6 +453,10 @@ func main() {
 			if j.batch == -3 {
 				tag = fmt.Sprintf("%s-stalled", j.kind)
 				batchArg = "stalled"
+			}
+			if j.batch == -4 {
+				tag = fmt.Sprintf("%s-framing", j.kind)
+				batchArg = "framing"
 			}
 			res := r.SpawnChild("c06", tag, nil, []string{"C06_KIND=" + string(j.kind), "C06_BATCH=" + batchArg, "C06_SEED=" + strconv.FormatInt(r.Seed, 10), "C06_LEVEL=" + strconv.Itoa(level)}, nil, 10*time.Minute)
 			cr := r.Merge(res.Stdout())
@@ -453,12 +476,12 @@ func main() {
 			r.Count("children", 1)
 		}(j)
 	}
-	for range jobs {
+	for k := phase1; k < len(jobs); k++ {
 		<-done
 	}
 	nativeFuzz(r)
-	r.Finish("server + hostile peers in a child process per (configuration, batch): the C03 request lattice (every member of every method's request x {absent, null, bool, int, float, string, array, object}, envelope faults, non-JSON / truncated bodies, 10000-deep and 1 MiB values, unsolicited responses with every id type), HTTP-level faults (paths, verbs, headers, GET/DELETE with every session-id class, also on servers without sessions), interleaved with well-formed calls from an independent client every 8 inputs; after each batch canaries on the same, a fresh and the independent connection, net/http ErrorLog scan for recovered panics, goroutines with library frames at quiescence after N/2 and N inputs. Thorough adds truncation at every offset, bit flips and random bytes. Then Go native fuzzing (coverage-guided, iteration-bounded) over the three entry points, seeded with the lattice; a concurrent storm of 6 hostile peers per configuration; on the four configurations with server-issued requests, 40 hostile answer shapes (every JSON type as result and as error, both, neither, retyped / foreign / never-sent ids, duplicates, deep, large, truncated) to a roots/list and to a raw SendRequest the server issued from inside a tool call, each followed by the proper answer and canaries. Peers hostile in their READING behaviour (one child per configuration): a peer opens its stream (legacy event stream / Streamable listening stream / the answers of its own pipelined POSTs, JSON or POST-SSE / stdio stdout over OS pipes) over a raw connection, stops reading, sends 320 (thorough 640) seed-shuffled requests of 24 answer classes (results small, 128 KiB and 1 MiB; unknown method / tool / prompt / resource and invalid params with 128 KiB echoed names or ids; handler failures; unencodable results; notifications; answers to requests never sent; tool calls that make the server send requests and notifications to that stream) until answers are parked behind full queues and buffers (parked goroutines are counted; fewer than 8 = scenario not observed, inconclusive), and disconnects by close or reset; 1 peer, then 2 more (thorough: then 4 more). Judged on the goroutine table only: goroutines with library frames that did not exist before, are still parked in a channel operation or lock after the peers left, in a number that grows from phase to phase = leak; an independent client is called while the peers are stalled and afterwards, a fresh client connects afterwards. Distinct = (configuration, input class, answer class) that conformed, (configuration, stalled stream, peers) with back-pressure built.",
-		[]string{"'no sequence of bytes' is sampled", "memory exhaustion by unbounded bodies is not driven", "goroutine growth is judged on counts at quiescence, never on time", "after stalled peers left, the harness waits up to 50 s for their goroutines to end before it looks at what is parked; a set that is still changing is inconclusive, not a violation", "a peer that stops reading is modelled by a raw TCP connection (8 KiB receive buffer) / an OS pipe that is simply not read; how many answers the kernel absorbs before the server blocks is measured, not assumed", "coverage-guided fuzzing (go test -fuzz, iteration-bounded) runs over ServeHTTP of the Streamable server, the legacy message endpoint and one stdio line, seeded with the lattice"})
+	r.Finish("server + hostile peers in a child process per (configuration, batch): the C03 request lattice (every member of every method's request x {absent, null, bool, int, float, string, array, object}, envelope faults, non-JSON / truncated bodies, 10000-deep and 1 MiB values, unsolicited responses with every id type), HTTP-level faults (paths, verbs, headers, GET/DELETE with every session-id class, also on servers without sessions), interleaved with well-formed calls from an independent client every 8 inputs; after each batch canaries on the same, a fresh and the independent connection, net/http ErrorLog scan for recovered panics, goroutines with library frames at quiescence after N/2 and N inputs. Thorough adds truncation at every offset, bit flips and random bytes. Then Go native fuzzing (coverage-guided, iteration-bounded) over the three entry points, seeded with the lattice; a concurrent storm of 6 hostile peers per configuration; on the four configurations with server-issued requests, 40 hostile answer shapes (every JSON type as result and as error, both, neither, retyped / foreign / never-sent ids, duplicates, deep, large, truncated) to a roots/list and to a raw SendRequest the server issued from inside a tool call, each followed by the proper answer and canaries. Peers hostile in their READING behaviour (one child per configuration): a peer opens its stream (legacy event stream / Streamable listening stream / the answers of its own pipelined POSTs, JSON or POST-SSE / stdio stdout over OS pipes) over a raw connection, stops reading, sends 320 (thorough 640) seed-shuffled requests of 24 answer classes (results small, 128 KiB and 1 MiB; unknown method / tool / prompt / resource and invalid params with 128 KiB echoed names or ids; handler failures; unencodable results; notifications; answers to requests never sent; tool calls that make the server send requests and notifications to that stream) until answers are parked behind full queues and buffers (parked goroutines are counted; fewer than 8 = scenario not observed, inconclusive), and disconnects by close or reset; 1 peer, then 2 more (thorough: then 4 more). Judged on the goroutine table only: goroutines with library frames that did not exist before, are still parked in a channel operation or lock after the peers left, in a number that grows from phase to phase = leak; an independent client is called while the peers are stalled and afterwards, a fresh client connects afterwards. HTTP FRAMING of the request as hostile input (one child per HTTP configuration, five Streamable + legacy message endpoint; requests written byte by byte on raw TCP connections): 18 legal framings (Transfer-Encoding: chunked as one chunk / 1-byte chunks / seeded sizes over seeded TCP segments / chunk extensions / declared and undeclared trailers / upper-case hex with leading zeros / odd header case / small segments; honest Content-Length in small segments / with leading zeros; Expect: 100-continue waiting and not waiting, also chunked; HTTP/1.0 with Content-Length; pipelined with a ping; on a re-used connection) x 8 bodies (ping, tools/list, echo 2 KiB and 64 KiB (thorough 512 KiB), unknown method, notification, truncated JSON, empty), judged differentially against the same body sent with an honest Content-Length (same status, same JSON-RPC frames; a connection closed without a status line = no answer); ~25 lenient framings (both Content-Length and Transfer-Encoding, duplicate Content-Length, HTTP/1.0 without length / chunked, other codings) and ~90 illegal ones (malformed chunk size lines, missing final chunk, truncation in mid-chunk / size line / trailer, Content-Length larger than the body then half-close / reset / stall, smaller with pipelined garbage, zero, 2^62, 2^63-1, 2^63, 2^64, 1<<40 under an address-space limit, garbage values, Expect without body, truncated head) where any status or a closed connection is accepted; GET / DELETE carrying a body must get a status line; after EVERY probe: no panic line in the ErrorLog, a well-formed ping on a fresh connection is answered (for stalling probes while the stalled connection is open). Distinct = (configuration, input class, answer class) that conformed, (configuration, stalled stream, peers) with back-pressure built, (configuration, framing class, body) answered as its Content-Length form, (configuration, hostile framing class, reaction).",
+		[]string{"'no sequence of bytes' is sampled", "memory exhaustion by unbounded bodies is not driven", "goroutine growth is judged on counts at quiescence, never on time", "after stalled peers left, the harness waits up to 50 s for their goroutines to end before it looks at what is parked; a set that is still changing is inconclusive, not a violation", "a peer that stops reading is modelled by a raw TCP connection (8 KiB receive buffer) / an OS pipe that is simply not read; how many answers the kernel absorbs before the server blocks is measured, not assumed", "request framing: 'legal' is RFC 9112 as net/http implements it; the reference reaction is the same body with an honest Content-Length sent twice (not reproducible = no differential, inconclusive); answers are compared with the id and per-request session ids removed and arrays as multisets; a watchdog (20 s) expiring with the connection open is inconclusive, only a connection closed without a status line is 'no answer'", "the child that receives absurd Content-Length announcements runs under RLIMIT_AS = 48 GiB: a server that reserves what the peer announces dies there instead of taking the machine along", "coverage-guided fuzzing (go test -fuzz, iteration-bounded) runs over ServeHTTP of the Streamable server, the legacy message endpoint and one stdio line, seeded with the lattice"})
 }
 
 func tail(s string, n int) string {
